@@ -115,4 +115,9 @@ def obligations(tier: str, seed: int):
             obs.append((f"free-D{D}-ac{int(a)}-k1", ob_free, dict(D=D, shape=shape, a=a, steps=1)))
             if D == 2:
                 obs.append((f"free-D{D}-ac{int(a)}-k2", ob_free, dict(D=D, shape=shape, a=a, steps=2)))
+    # FlowFields.exp() wrapper: the same exponential whatever representation the vectors are given in (shared with C10)
+    from checks.c10 import ob_exp
+
+    for D in (2, 3):
+        obs.append((f"flowfields-exp-axes-D{D}", ob_exp, dict(D=D, a=bool((D + seed) % 2), steps=1, N=1)))
     return obs
